@@ -1,3 +1,4 @@
+import Cctp.Lemmas.Batch
 import Cctp.Spec.Toy
 import Cctp.Lemmas.LastWrite
 import Cctp.Lemmas.NoPanic
@@ -936,5 +937,17 @@ theorem pending_owner_lost :
     survives the round trip (the hypotheses of `export_init`, `init_export_partial`, `roundtrip_reachable` are met) -/
 example : Genesis.validate Toy.ext Toy.genesis = true ∧ Genesis.init Toy.ext [] Toy.genesis = .ok Toy.st := ⟨by decide +kernel, rfl⟩
 example : Exportable Toy.st := exportable_of_init Toy.ext Toy.genesis Toy.st rfl
+
+
+/-- the round trip for chains of multi-message transactions. -/
+theorem roundtrip_reachable_txs (ext : Ext) (cfg : Cfg) (g : Genesis) (st0 : Store) (led : Ledger) (txs : List Txn)
+    (hl : led.faults = []) (hi : Genesis.init ext [] g = .ok st0)
+    (hp : (runTxs ext cfg ⟨st0, led⟩ txs).1.store.get Key.pendingOwner = none) :
+    ∃ g', exportG (runTxs ext cfg ⟨st0, led⟩ txs).1.store = .ok g' ∧
+      Genesis.init ext [] g' = .ok (runTxs ext cfg ⟨st0, led⟩ txs).1.store := by
+  have hs : (⟨st0, led⟩ : World).settle = ⟨st0, led⟩ := by
+    cases led; simp only [World.settle] at *; simp_all
+  rw [runTxs_flatten ext cfg txs _ hs] at hp ⊢
+  exact roundtrip_reachable ext cfg g st0 led _ hi hp
 
 end Cctp.C17
